@@ -71,6 +71,11 @@ pub enum Op {
     ProbeTryView { rx: u16 },
     /// epilogue probes (C06)
     ProbeQuiescent,
+    /// run `body` `times` times; after the iterations listed in `sample_after` (1-based) record the
+    /// bytes currently held by the crate (C17)
+    Repeat { times: u32, body: Vec<Op>, sample_after: Vec<u32> },
+    /// record the bytes currently held by the crate
+    MemSample,
 }
 
 #[derive(Clone, Debug, PartialEq, Eq, Hash, Serialize, Deserialize)]
@@ -90,6 +95,19 @@ pub struct ExecOpts {
     pub solo_base: Option<u64>,
     pub solo_per_spin: u64,
     pub max_steps: u64,
+    /// step bound of the solo-run probes (C18)
+    #[serde(default = "default_probe_bound")]
+    pub probe_bound: u64,
+    /// account the crate's heap allocations (C17)
+    #[serde(default)]
+    pub mem: bool,
+    /// do not store the call log (very long churn runs)
+    #[serde(default)]
+    pub no_log: bool,
+}
+
+fn default_probe_bound() -> u64 {
+    400
 }
 
 impl Default for ExecOpts {
@@ -101,6 +119,9 @@ impl Default for ExecOpts {
             solo_base: None,
             solo_per_spin: 0,
             max_steps: 40_000,
+            probe_bound: 400,
+            mem: false,
+            no_log: false,
         }
     }
 }
@@ -227,12 +248,19 @@ pub struct Stats {
     pub skipped_ops: u64,
     pub excluded_known: u64,
     pub probes: u64,
+    pub probes_with_frozen_midcall: u64,
     pub max_probe_steps: u64,
     pub sends_full_then_ok: u64,
     pub not_ready_send: u64,
     pub not_ready_poll: u64,
     pub parked: u64,
     pub poll_unwritten: u64,
+    /// (label, live bytes, live blocks) samples taken by MemSample / Repeat
+    pub mem_samples: Vec<(u32, i64, i64)>,
+    /// calls completed by every program when each sample was taken
+    pub calls_by_prog_at_sample: Vec<Vec<u64>>,
+    pub calls_by_prog: Vec<u64>,
+    pub calls_made: u64,
 }
 
 pub struct TxH {
@@ -346,9 +374,12 @@ impl Ctx {
             op_idx: self.op_idx,
         });
         let t0 = self.tick();
-        let (r, res) = match self.solo_bound() {
-            Some(b) => sched().solo(b, || f(self)),
-            None => f(self),
+        let (r, res) = {
+            let _count = crate::mem::Count::on();
+            match self.solo_bound() {
+                Some(b) => sched().solo(b, || f(self)),
+                None => f(self),
+            }
         };
         let t1 = self.tick();
         sched().set_activity(Act::default());
@@ -554,10 +585,19 @@ impl Ctx {
     }
 
     /// callback that logs every `next()` of an iterator as its own call, as it happens
-    fn iter_emitter(&self, hid: u32, stream: u32, rxk: RxKind, kind: CallKind) -> impl FnMut(Option<Seen>, u64, u64) {
+    fn iter_emitter(
+        &self,
+        hid: u32,
+        stream: u32,
+        rxk: RxKind,
+        kind: CallKind,
+        last_t1: Arc<std::sync::atomic::AtomicU64>,
+    ) -> impl FnMut(Option<Seen>, u64, u64) {
         let sh = self.sh.clone();
         let (prog, op_idx) = (self.prog, self.op_idx);
         move |it, t0, t1| {
+            let _nc = crate::mem::NoCount::new();
+            last_t1.store(t1, std::sync::atomic::Ordering::Relaxed);
             let res = match it {
                 Some(s) => RecvOut::Val(s),
                 None => RecvOut::End,
@@ -595,9 +635,13 @@ impl Ctx {
                 stream,
                 op_idx: self.op_idx,
             });
-            let mut emit = self.iter_emitter(hid, stream, rxk, CallKind::IterNext);
-            if h.rx.into_iter_take(usize::MAX, extra, &|| sched().tick(), &mut emit).is_err() {
-                unreachable!();
+            let last_t1 = Arc::new(std::sync::atomic::AtomicU64::new(self.tick()));
+            let mut emit = self.iter_emitter(hid, stream, rxk, CallKind::IterNext, last_t1.clone());
+            {
+                let _count = crate::mem::Count::on();
+                if h.rx.into_iter_take(usize::MAX, extra, &|| sched().tick(), &mut emit).is_err() {
+                    unreachable!();
+                }
             }
             sched().set_activity(Act::default());
             // the iterator owned the handle: it is gone now
@@ -608,7 +652,9 @@ impl Ctx {
                 kind: CallKind::DropRx,
                 handle: hid,
                 stream,
-                t0: t,
+                // the iterator (and with it the handle) was dropped somewhere between the end of
+                // its last next() and now
+                t0: last_t1.load(std::sync::atomic::Ordering::Relaxed),
                 t1: t,
                 res: Res::Unit,
                 rxk: Some(rxk),
@@ -824,11 +870,14 @@ impl Ctx {
                         stream,
                         op_idx: self.op_idx,
                     });
-                    let mut emit = self.iter_emitter(hid, stream, rxk, CallKind::TryIterNext);
-                    self.rxs[i]
-                        .rx
-                        .try_iter(*max as usize + 1, *variant, &|| sched().tick(), &mut emit)
-                        .unwrap();
+                    let mut emit = self.iter_emitter(hid, stream, rxk, CallKind::TryIterNext, Arc::new(std::sync::atomic::AtomicU64::new(0)));
+                    {
+                        let _count = crate::mem::Count::on();
+                        self.rxs[i]
+                            .rx
+                            .try_iter(*max as usize + 1, *variant, &|| sched().tick(), &mut emit)
+                            .unwrap();
+                    }
                     sched().set_activity(Act::default());
                 }
                 Some(i) => {
@@ -863,9 +912,13 @@ impl Ctx {
                         stream,
                         op_idx: self.op_idx,
                     });
-                    let mut emit = self.iter_emitter(hid, stream, rxk, CallKind::IterNext);
-                    if h.rx.into_iter_take(max_calls, *variant, &|| sched().tick(), &mut emit).is_err() {
-                        unreachable!();
+                    let last_t1 = Arc::new(std::sync::atomic::AtomicU64::new(self.tick()));
+            let mut emit = self.iter_emitter(hid, stream, rxk, CallKind::IterNext, last_t1.clone());
+                    {
+                        let _count = crate::mem::Count::on();
+                        if h.rx.into_iter_take(max_calls, *variant, &|| sched().tick(), &mut emit).is_err() {
+                            unreachable!();
+                        }
                     }
                     sched().set_activity(Act::default());
                     let t = self.tick();
@@ -875,7 +928,7 @@ impl Ctx {
                         kind: CallKind::DropRx,
                         handle: hid,
                         stream,
-                        t0: t,
+                        t0: last_t1.load(std::sync::atomic::Ordering::Relaxed),
                         t1: t,
                         res: Res::Unit,
                         rxk: Some(rxk),
@@ -1089,7 +1142,7 @@ impl Ctx {
                     debug_assert!(last != i);
                     let s = sel_last();
                     for _ in 0..*sends {
-                        self.exec(&Op::Send { tx: s, max: 0 });
+                        self.exec(&Op::Send { tx: s, max: 3 });
                     }
                     self.drop_tx(last, false);
                 }
@@ -1107,7 +1160,7 @@ impl Ctx {
             Op::ProbeTrySend { tx } => match pick(*tx, self.txs.len()) {
                 Some(i) => {
                     let v = self.new_value();
-                    let bound = 4000;
+                    let bound = self.sh.sc.opts.probe_bound;
                     let used0 = sched().now();
                     let (_, back) = sched().solo(bound, || self.do_try_send(i, v));
                     drop(back);
@@ -1118,7 +1171,7 @@ impl Ctx {
             Op::ProbeTryRecv { rx } => match pick(*rx, self.rxs.len()) {
                 Some(i) => {
                     let used0 = sched().now();
-                    sched().solo(4000, || self.do_try_recv(i));
+                    sched().solo(self.sh.sc.opts.probe_bound, || self.do_try_recv(i));
                     self.note_probe(sched().now() - used0);
                 }
                 None => self.skip(),
@@ -1126,20 +1179,45 @@ impl Ctx {
             Op::ProbeTryView { rx } => match pick(*rx, self.rxs.len()) {
                 Some(i) => {
                     let used0 = sched().now();
-                    sched().solo(4000, || self.do_try_view(i));
+                    sched().solo(self.sh.sc.opts.probe_bound, || self.do_try_view(i));
                     self.note_probe(sched().now() - used0);
                 }
                 None => self.skip(),
             },
             Op::ProbeQuiescent => self.probe_quiescent(),
+            Op::Repeat { times, body, sample_after } => {
+                for k in 1..=*times {
+                    for o in body {
+                        self.exec(o);
+                    }
+                    if sample_after.contains(&k) {
+                        self.mem_sample(k);
+                    }
+                }
+            }
+            Op::MemSample => self.mem_sample(0),
         }
     }
 
-    fn note_probe(&self, steps: u64) {
+    fn mem_sample(&self, label: u32) {
+        let (b, n) = crate::mem::live();
+        let mut l = self.sh.lock();
+        if l.stats.mem_samples.len() < 64 {
+            l.stats.mem_samples.push((label, b, n));
+            let snap = l.stats.calls_by_prog.clone();
+            l.stats.calls_by_prog_at_sample.push(snap);
+        }
+    }
+
+    fn note_probe(&self, _elapsed: u64) {
+        let (mid, used) = sched().last_solo();
         let mut l = self.sh.lock();
         l.stats.probes += 1;
-        if steps > l.stats.max_probe_steps {
-            l.stats.max_probe_steps = steps;
+        if mid > 0 {
+            l.stats.probes_with_frozen_midcall += 1;
+        }
+        if used > l.stats.max_probe_steps {
+            l.stats.max_probe_steps = used;
         }
     }
 
@@ -1273,7 +1351,15 @@ pub fn log_call_sh(sh: &Shared, c: Call) {
             check_parked(&mut l, &c);
         }
     }
-    l.calls.push(c);
+    l.stats.calls_made += 1;
+    let p = c.prog as usize;
+    if l.stats.calls_by_prog.len() <= p {
+        l.stats.calls_by_prog.resize(p + 1, 0);
+    }
+    l.stats.calls_by_prog[p] += 1;
+    if !sh.sc.opts.no_log {
+        l.calls.push(c);
+    }
 }
 
 /// Sequential part of C14: after a call that makes progress possible for a parked task, the
@@ -1359,6 +1445,17 @@ pub struct Execution {
     pub ledger: LedgerSummary,
     pub stats: Stats,
     pub model_wrapped: bool,
+    pub mem: MemReport,
+}
+
+#[derive(Clone, Debug, Default, Serialize, Deserialize)]
+pub struct MemReport {
+    pub enabled: bool,
+    /// (bytes, blocks) attributed to the crate and live before the queue was created / after
+    /// the last handle was dropped
+    pub before: (i64, i64),
+    pub after: (i64, i64),
+    pub live_block_sizes: Vec<usize>,
 }
 
 /// Executes a scenario on the managed thread pool and returns everything the oracles need.
@@ -1394,8 +1491,14 @@ pub fn run_scenario(sc: &Scenario) -> Execution {
     };
     let sh2 = sh.clone();
     let q = sc.q;
+    let mem_on = sc.opts.mem;
+    crate::mem::enable(mem_on);
+    let mem_before = crate::mem::live();
     let outcome = sched().run(cfg, move || {
-        let (tx, rx) = create(&q);
+        let (tx, rx) = {
+            let _count = crate::mem::Count::on();
+            create(&q)
+        };
         sh2.lock().prog_tid[0] = Some(0);
         let mut c = Ctx {
             prog: 0,
@@ -1413,6 +1516,13 @@ pub fn run_scenario(sc: &Scenario) -> Execution {
     // handles returned by programs nobody joined are dropped here, outside the execution
     let leftovers = std::mem::take(&mut sh.lock().returned);
     drop(leftovers);
+    let mem_after = crate::mem::live();
+    let leaked_sizes = if mem_on && mem_after != mem_before {
+        crate::mem::live_block_sizes(24)
+    } else {
+        Vec::new()
+    };
+    crate::mem::enable(false);
     let ledger = payload::ledger_summary();
     let mut l = sh.lock();
     Execution {
@@ -1422,5 +1532,11 @@ pub fn run_scenario(sc: &Scenario) -> Execution {
         ledger,
         stats: l.stats.clone(),
         model_wrapped: l.model.as_ref().map(|m| m.wrapped).unwrap_or(false),
+        mem: MemReport {
+            enabled: mem_on,
+            before: mem_before,
+            after: mem_after,
+            live_block_sizes: leaked_sizes,
+        },
     }
 }
